@@ -137,6 +137,78 @@ proof fn lemma_min_unique(m: Map<(Price, Nanos), OrderId>)
 }
 
 
+
+impl Order {
+    pub fn buy_limit(t: Nanos, vol: Vol, price: Price, trader_id: TraderId, order_id: OrderId) -> (o: Order)
+        ensures o == (Order { side: Side::Bid, status: Status::New, arr_time: t, end_time: u64::MAX, vol, start_vol: vol, price, trader_id, order_id })
+    {
+        Order {
+            side: Side::Bid,
+            status: Status::New,
+            arr_time: t,
+            end_time: Nanos::MAX,
+            vol,
+            start_vol: vol,
+            price,
+            trader_id,
+            order_id,
+        }
+    }
+    pub fn buy_market(t: Nanos, vol: Vol, trader_id: TraderId, order_id: OrderId) -> (o: Order)
+        ensures o == (Order { side: Side::Bid, status: Status::New, arr_time: t, end_time: u64::MAX, vol, start_vol: vol, price: u32::MAX, trader_id, order_id })
+    {
+        Order {
+            side: Side::Bid,
+            status: Status::New,
+            arr_time: t,
+            end_time: Nanos::MAX,
+            vol,
+            start_vol: vol,
+            price: Price::MAX,
+            trader_id,
+            order_id,
+        }
+    }
+    pub fn sell_limit(t: Nanos, vol: Vol, price: Price, trader_id: TraderId, order_id: OrderId) -> (o: Order)
+        ensures o == (Order { side: Side::Ask, status: Status::New, arr_time: t, end_time: u64::MAX, vol, start_vol: vol, price, trader_id, order_id })
+    {
+        Order {
+            side: Side::Ask,
+            status: Status::New,
+            arr_time: t,
+            end_time: Nanos::MAX,
+            vol,
+            start_vol: vol,
+            price,
+            trader_id,
+            order_id,
+        }
+    }
+    pub fn sell_market(t: Nanos, vol: Vol, trader_id: TraderId, order_id: OrderId) -> (o: Order)
+        ensures o == (Order { side: Side::Ask, status: Status::New, arr_time: t, end_time: u64::MAX, vol, start_vol: vol, price: 0, trader_id, order_id })
+    {
+        Order {
+            side: Side::Ask,
+            status: Status::New,
+            arr_time: t,
+            end_time: Nanos::MAX,
+            vol,
+            start_vol: vol,
+            price: 0,
+            trader_id,
+            order_id,
+        }
+    }
+}
+pub fn get_bid_key(t: Nanos, price: Price) -> (k: OrderKey) ensures k == (Side::Bid, (u32::MAX - price) as u32, t) {
+    (Side::Bid, Price::MAX - price, t)
+}
+pub fn get_ask_key(t: Nanos, price: Price) -> (k: OrderKey) ensures k == (Side::Ask, price, t) {
+    (Side::Ask, price, t)
+}
+pub enum OrderError {
+    PriceError { price: Price, tick_size: Price },
+}
 // ---------------- Bid / Ask wrappers (real code, forwarding contracts) ----------------
 #[derive(Default)]
 pub struct BidSide(OrderBookSide);
@@ -144,6 +216,23 @@ pub struct BidSide(OrderBookSide);
 pub struct AskSide(OrderBookSide);
 
 impl BidSide {
+    fn remove_vol(&mut self, price: Price, vol: Vol)
+        requires
+            old(self).0.lv().contains_key(price),
+            old(self).0.lv()[price].0 >= vol,
+            old(self).0.sv() >= vol,
+        ensures
+            final(self).0.om() == old(self).0.om(),
+            final(self).0.sv() == old(self).0.sv() - vol,
+            final(self).0.lv() == old(self).0.lv().insert(price, ((old(self).0.lv()[price].0 - vol) as u32, old(self).0.lv()[price].1)),
+    {
+        self.0.remove_vol(price, vol)
+    }
+    fn best_order_idx(&self) -> (r: Option<OrderId>)
+        ensures r == (if self.0.om().dom() =~= Set::empty() { None } else { Some(self.0.om()[min_k(self.0.om())]) }),
+    {
+        self.0.best_order_idx()
+    }
     fn insert_order(&mut self, key: OrderKey, idx: OrderId, vol: Vol)
         requires
             old(self).0.sv() + vol <= u32::MAX,
@@ -155,6 +244,19 @@ impl BidSide {
                 if old(self).0.lv().contains_key(key.1) { ((old(self).0.lv()[key.1].0 + vol) as u32, (old(self).0.lv()[key.1].1 + 1) as u32) } else { (vol, 1u32) }),
     {
         self.0.insert_order(key, idx, vol)
+    }
+    fn remove_order(&mut self, key: OrderKey, vol: Vol)
+        requires
+            old(self).0.lv().contains_key(key.1),
+            old(self).0.lv()[key.1].0 >= vol, old(self).0.lv()[key.1].1 >= 1,
+            old(self).0.sv() >= vol,
+        ensures
+            final(self).0.om() == old(self).0.om().remove((key.1, key.2)),
+            final(self).0.sv() == old(self).0.sv() - vol,
+            final(self).0.lv() == (if old(self).0.lv()[key.1].1 == 1 { old(self).0.lv().remove(key.1) } else {
+                old(self).0.lv().insert(key.1, ((old(self).0.lv()[key.1].0 - vol) as u32, (old(self).0.lv()[key.1].1 - 1) as u32)) }),
+    {
+        self.0.remove_order(key, vol)
     }
     fn best_price(&self) -> (r: Price)
         ensures r == (if self.0.om().dom() =~= Set::empty() { 0u32 } else { (u32::MAX - min_k(self.0.om()).0) as u32 }),
@@ -351,13 +453,13 @@ proof fn lemma_step_wf(os0: Seq<OrderEntry>, s0: OrderBookSide, sd: Side, x: int
     requires
         side_wf(os0, s0, sd, x), 0 <= id < os0.len(), rs(os0, id, sd, x), 1 <= tv <= os0[id].order.vol,
         e1.key == os0[id].key,
-        (e1.order.status == Status::Filled && tv == os0[id].order.vol) || (e1.order.status == Status::Active && e1.order.vol == os0[id].order.vol - tv && tv < os0[id].order.vol),
-        e1.order.status == Status::Filled ==> {
+        (e1.order.status != Status::Active && tv == os0[id].order.vol) || (e1.order.status == Status::Active && e1.order.vol == os0[id].order.vol - tv && tv < os0[id].order.vol),
+        e1.order.status != Status::Active ==> {
             &&& s1.om() == s0.om().remove((e1.key.1, e1.key.2))
             &&& s1.sv() == s0.sv() - tv
             &&& s1.lv() == (if s0.lv()[e1.key.1].1 == 1 { s0.lv().remove(e1.key.1) } else { s0.lv().insert(e1.key.1, ((s0.lv()[e1.key.1].0 - tv) as u32, (s0.lv()[e1.key.1].1 - 1) as u32)) })
         },
-        e1.order.status != Status::Filled ==> {
+        e1.order.status == Status::Active ==> {
             &&& s1.om() == s0.om()
             &&& s1.sv() == s0.sv() - tv
             &&& s1.lv() == s0.lv().insert(e1.key.1, ((s0.lv()[e1.key.1].0 - tv) as u32, s0.lv()[e1.key.1].1))
@@ -457,6 +559,49 @@ proof fn lemma_ref_match_bid_props(os: Seq<OrderEntry>, trs: Seq<Trade>, tv: int
         }
     }
 }
+spec fn ref_match_ask(os: Seq<OrderEntry>, trs: Seq<Trade>, tv: int, agg: Order, t: Nanos, x: int) -> (Seq<OrderEntry>, Seq<Trade>, int, Order)
+    decreases tot_cnt(os, os.len() as int, Side::Bid, x), agg.vol
+{
+    if agg.vol > 0 && has_resting(os, Side::Bid, x) && 0 <= best(os, Side::Bid, x) < os.len() && agg.price <= os[best(os, Side::Bid, x)].order.price && os[best(os, Side::Bid, x)].order.vol > 0 {
+        let b = best(os, Side::Bid, x);
+        let v = if agg.vol <= os[b].order.vol { agg.vol } else { os[b].order.vol };
+        let pass2 = fill(os[b].order, v, t);
+        let agg2 = fill(agg, v, t);
+        let tr = Trade { t, side: os[b].order.side, price: os[b].order.price, vol: v, active_order_id: agg.order_id, passive_order_id: os[b].order.order_id };
+        let os2 = os.update(b, OrderEntry { order: pass2, key: os[b].key });
+        if tot_cnt(os2, os2.len() as int, Side::Bid, x) < tot_cnt(os, os.len() as int, Side::Bid, x) || (tot_cnt(os2, os2.len() as int, Side::Bid, x) == tot_cnt(os, os.len() as int, Side::Bid, x) && agg2.vol < agg.vol) {
+            ref_match_ask(os2, trs.push(tr), tv + v, agg2, t, x)
+        } else { (os, trs, tv, agg) }
+    } else {
+        (os, trs, tv, agg)
+    }
+}
+proof fn lemma_ref_match_ask_props(os: Seq<OrderEntry>, trs: Seq<Trade>, tv: int, agg: Order, t: Nanos, x: int)
+    requires agg.status != Status::Filled, agg.vol >= 1
+    ensures ({
+        let r = ref_match_ask(os, trs, tv, agg, t, x);
+        &&& r.0.len() == os.len()
+        &&& r.3.order_id == agg.order_id && r.3.side == agg.side && r.3.price == agg.price && r.3.trader_id == agg.trader_id
+            && r.3.arr_time == agg.arr_time && r.3.start_vol == agg.start_vol
+        &&& r.3.vol <= agg.vol
+        &&& (r.3.status == Status::Filled <==> r.3.vol == 0)
+        &&& (r.3.status != Status::Filled ==> r.3.status == agg.status && r.3.end_time == agg.end_time)
+    })
+    decreases tot_cnt(os, os.len() as int, Side::Bid, x), agg.vol
+{
+    if agg.vol > 0 && has_resting(os, Side::Bid, x) && 0 <= best(os, Side::Bid, x) < os.len() && agg.price <= os[best(os, Side::Bid, x)].order.price && os[best(os, Side::Bid, x)].order.vol > 0 {
+        let b = best(os, Side::Bid, x);
+        let v = if agg.vol <= os[b].order.vol { agg.vol } else { os[b].order.vol };
+        let pass2 = fill(os[b].order, v, t);
+        let agg2 = fill(agg, v, t);
+        let tr = Trade { t, side: os[b].order.side, price: os[b].order.price, vol: v, active_order_id: agg.order_id, passive_order_id: os[b].order.order_id };
+        let os2 = os.update(b, OrderEntry { order: pass2, key: os[b].key });
+        if tot_cnt(os2, os2.len() as int, Side::Bid, x) < tot_cnt(os, os.len() as int, Side::Bid, x) || (tot_cnt(os2, os2.len() as int, Side::Bid, x) == tot_cnt(os, os.len() as int, Side::Bid, x) && agg2.vol < agg.vol) {
+            if agg2.vol >= 1 { lemma_ref_match_ask_props(os2, trs.push(tr), tv + v, agg2, t, x); }
+            else { assert(ref_match_ask(os2, trs.push(tr), tv + v, agg2, t, x) == (os2, trs.push(tr), tv + v, agg2)); }
+        }
+    }
+}
 impl Book {
     spec fn wfx(&self, x: int) -> bool {
         ids_wf(self.orders@) && side_wf(self.orders@, self.ask_side.0, Side::Ask, x) && side_wf(self.orders@, self.bid_side.0, Side::Bid, x)
@@ -537,6 +682,81 @@ impl Book {
             lemma_best(self.orders@, self.ask_side.0, Side::Ask, x);
         }
     }
+    #[verifier::exec_allows_no_decreases_clause]
+    fn match_ask(&mut self, order_entry: &mut OrderEntry)
+        requires
+            old(self).wfx(old(order_entry).order.order_id as int),
+            old(order_entry).order.order_id < old(self).orders@.len(),
+            old(self).orders@[old(order_entry).order.order_id as int].key.0 == Side::Ask,
+            old(self).trade_vol as int + old(order_entry).order.vol <= u32::MAX,
+        ensures
+            final(self).wfx(old(order_entry).order.order_id as int),
+            (final(self).orders@, final(self).trades@, final(self).trade_vol as int, final(order_entry).order)
+                == ref_match_ask(old(self).orders@, old(self).trades@, old(self).trade_vol as int, old(order_entry).order, old(self).t, old(order_entry).order.order_id as int),
+            final(self).t == old(self).t, final(self).tick_size == old(self).tick_size, final(self).trading == old(self).trading,
+            final(self).ask_side == old(self).ask_side,
+            final(order_entry).key == old(order_entry).key,
+            final(self).orders@.len() == old(self).orders@.len(),
+            final(self).orders@[old(order_entry).order.order_id as int] == old(self).orders@[old(order_entry).order.order_id as int],
+    {
+        let ghost x = order_entry.order.order_id as int;
+        while (order_entry.order.vol > 0) && (order_entry.order.price <= self.bid_side.best_price())
+            invariant
+                self.wfx(x), x == order_entry.order.order_id, 0 <= x < self.orders@.len(), self.orders@[x].key.0 == Side::Ask,
+                self.t == old(self).t, self.tick_size == old(self).tick_size, self.trading == old(self).trading, self.ask_side == old(self).ask_side,
+                order_entry.key == old(order_entry).key,
+                self.orders@.len() == old(self).orders@.len(), self.orders@[x] == old(self).orders@[x],
+                self.trade_vol as int + order_entry.order.vol <= u32::MAX,
+                ref_match_ask(self.orders@, self.trades@, self.trade_vol as int, order_entry.order, self.t, x)
+                    == ref_match_ask(old(self).orders@, old(self).trades@, old(self).trade_vol as int, old(order_entry).order, old(self).t, x),
+            ensures
+                order_entry.order.vol == 0 || self.bid_side.0.om().dom() =~= Set::empty() || order_entry.order.price > u32::MAX - min_k(self.bid_side.0.om()).0,
+        {
+            let next_order_id = self.bid_side.best_order_idx();
+            match next_order_id {
+                Some(id) => {
+                    proof {
+                        let os = self.orders@;
+                        lemma_best(os, self.bid_side.0, Side::Bid, x);
+                        lemma_member(os, os.len() as int, Side::Bid, x, id as int);
+                        assert(lvl_cnt(os, os.len() as int, Side::Bid, x, os[id as int].key.1) > 0);
+                        assert(self.bid_side.0.lv().contains_key(os[id as int].key.1));
+                        lemma_nonneg(os, os.len() as int, Side::Bid, x, os[id as int].key.1);
+                    }
+                    let ghost os0 = self.orders@;
+                    let ghost side0 = self.bid_side.0;
+                    let match_order = &mut self.orders.get_mut(id).unwrap();
+                    let trade_vol = match_orders(
+                        self.t,
+                        &mut order_entry.order,
+                        &mut match_order.order,
+                        &mut self.trades,
+                    );
+                    self.trade_vol += trade_vol;
+                    if match_order.order.status == Status::Filled {
+                        self.bid_side.remove_order(match_order.key, trade_vol);
+                    } else {
+                        self.bid_side.remove_vol(match_order.key.1, trade_vol);
+                    }
+                    proof {
+                        let os1 = self.orders@;
+                        let e1 = os1[id as int];
+                        assert(os1 =~= os0.update(id as int, e1));
+                        lemma_step_wf(os0, side0, Side::Bid, x, id as int, e1, self.bid_side.0, trade_vol);
+                        lemma_other_side(os0, self.ask_side.0, Side::Ask, x, id as int, e1);
+                        assert(e1 == OrderEntry { order: fill(os0[id as int].order, trade_vol, self.t), key: os0[id as int].key });
+                        lemma_delta(os0, x, os1, x, os0.len() as int, Side::Bid, 0, id as int, id as int);
+                    }
+                }
+                None => {
+                    break;
+                }
+            }
+        }
+        proof {
+            lemma_best(self.orders@, self.bid_side.0, Side::Bid, x);
+        }
+    }
 }
 
 
@@ -615,6 +835,10 @@ proof fn lemma_exclude_nonresting(os: Seq<OrderEntry>, s: OrderBookSide, sd: Sid
 }
 
 impl Book {
+    spec fn obs_eq(&self, o: Book) -> bool {
+        self.orders@ == o.orders@ && self.trades@ == o.trades@ && self.t == o.t && self.tick_size == o.tick_size && self.trade_vol == o.trade_vol && self.trading == o.trading
+        && self.ask_side == o.ask_side && self.bid_side == o.bid_side
+    }
     spec fn wf_after(&self, x: int, e: OrderEntry) -> bool {
         let os = self.orders@.update(x, e);
         ids_wf(os) && side_wf(os, self.ask_side.0, Side::Ask, -1) && side_wf(os, self.bid_side.0, Side::Bid, -1)
@@ -677,6 +901,239 @@ proof fn lemma_cnt0_vol0(os: Seq<OrderEntry>, n: int, sd: Side, x: int, p: u32)
     ensures lvl_vol(os, n, sd, x, p) == 0
     decreases n
 { if n > 0 { lemma_cnt0_vol0(os, n - 1, sd, x, p); } }
+
+impl Book {
+    spec fn place_pre(&self, e: OrderEntry) -> bool {
+        let x = e.order.order_id as int;
+        &&& x < self.orders@.len() && self.orders@[x].key == e.key
+        &&& e.key.0 == e.order.side && e.order.status == Status::Active && e.order.vol >= 1
+        &&& e.key.1 == (match e.order.side { Side::Ask => e.order.price, Side::Bid => (u32::MAX - e.order.price) as u32 })
+        &&& self.trade_vol as int + e.order.vol <= u32::MAX
+        &&& (match e.order.side { Side::Bid => self.bid_side.0.sv() + e.order.vol <= u32::MAX && !self.bid_side.0.om().contains_key((e.key.1, self.t)),
+                                  Side::Ask => self.ask_side.0.sv() + e.order.vol <= u32::MAX && !self.ask_side.0.om().contains_key((e.key.1, self.t)) })
+    }
+    #[verifier::external_body]
+    fn place_ask_limit(&mut self, order_entry: &mut OrderEntry)
+        requires old(self).wfx(old(order_entry).order.order_id as int), old(self).place_pre(*old(order_entry)), old(order_entry).order.side == Side::Ask,
+        ensures final(self).wf_after(old(order_entry).order.order_id as int, *final(order_entry)), final(self).orders@.len() == old(self).orders@.len(),
+            final(self).t == old(self).t, final(self).trading == old(self).trading,
+    { unimplemented!() }
+    #[verifier::external_body]
+    fn place_ask_market(&mut self, order_entry: &mut OrderEntry)
+        requires old(self).wfx(old(order_entry).order.order_id as int), old(self).place_pre(*old(order_entry)), old(order_entry).order.side == Side::Ask,
+        ensures final(self).wf_after(old(order_entry).order.order_id as int, *final(order_entry)), final(self).orders@.len() == old(self).orders@.len(),
+            final(self).t == old(self).t, final(self).trading == old(self).trading,
+    { unimplemented!() }
+
+    fn place_bid_market(&mut self, order_entry: &mut OrderEntry)
+        requires old(self).wfx(old(order_entry).order.order_id as int), old(self).place_pre(*old(order_entry)), old(order_entry).order.side == Side::Bid,
+        ensures final(self).wf_after(old(order_entry).order.order_id as int, *final(order_entry)), final(self).orders@.len() == old(self).orders@.len(),
+            final(self).t == old(self).t, final(self).trading == old(self).trading,
+            final(order_entry).order.status != Status::Active,
+    {
+        let ghost x = order_entry.order.order_id as int;
+        proof { lemma_ref_match_bid_props(self.orders@, self.trades@, self.trade_vol as int, order_entry.order, self.t, x); }
+        match self.trading {
+            true => {
+                self.match_bid(order_entry);
+                if order_entry.order.status != Status::Filled {
+                    order_entry.order.status = Status::Cancelled;
+                    order_entry.order.end_time = self.t;
+                }
+            }
+            false => {
+                order_entry.order.status = Status::Rejected;
+                order_entry.order.end_time = self.t;
+            }
+        }
+        proof {
+            lemma_unexclude_other(self.orders@, self.bid_side.0, Side::Bid, x, *order_entry);
+            lemma_unexclude_other(self.orders@, self.ask_side.0, Side::Ask, x, *order_entry);
+        }
+    }
+
+    fn place_order(&mut self, order_id: OrderId)
+        requires
+            old(self).wfx(-1), order_id < old(self).orders@.len(),
+            old(self).orders@[order_id as int].order.status == Status::New ==>
+                old(self).place_pre(OrderEntry { order: Order { status: Status::Active, arr_time: old(self).t, ..old(self).orders@[order_id as int].order }, key: old(self).orders@[order_id as int].key }),
+        ensures
+            final(self).wfx(-1), final(self).orders@.len() == old(self).orders@.len(),
+            old(self).orders@[order_id as int].order.status != Status::New ==> *final(self) == *old(self),   // [C04.noop]
+    {
+        let mut order_entry = self.orders[order_id];
+
+        if order_entry.order.status != Status::New {
+            return;
+        }
+
+        order_entry.order.status = Status::Active;
+        order_entry.order.arr_time = self.t;
+        proof {
+            lemma_exclude_nonresting(self.orders@, self.ask_side.0, Side::Ask, order_id as int);
+            lemma_exclude_nonresting(self.orders@, self.bid_side.0, Side::Bid, order_id as int);
+        }
+
+        match order_entry.order.side {
+            Side::Bid => {
+                if order_entry.order.price == Price::MAX {
+                    self.place_bid_market(&mut order_entry)
+                } else {
+                    self.place_bid_limit(&mut order_entry)
+                }
+            }
+            Side::Ask => {
+                if order_entry.order.price == 0 {
+                    self.place_ask_market(&mut order_entry)
+                } else {
+                    self.place_ask_limit(&mut order_entry)
+                }
+            }
+        }
+
+        self.orders[order_id] = order_entry;
+    }
+
+    fn cancel_order(&mut self, order_id: OrderId)
+        requires old(self).wfx(-1), order_id < old(self).orders@.len(),
+        ensures final(self).wfx(-1), final(self).orders@.len() == old(self).orders@.len(),
+            old(self).orders@[order_id as int].order.status != Status::Active ==> final(self).obs_eq(*old(self)),   // [C04.noop]
+            old(self).orders@[order_id as int].order.status == Status::Active ==>
+                final(self).orders@ == old(self).orders@.update(order_id as int, OrderEntry { order: Order { status: Status::Cancelled, end_time: old(self).t, ..old(self).orders@[order_id as int].order }, key: old(self).orders@[order_id as int].key }),
+    {
+        let ghost os0 = self.orders@;
+        let ghost bid0 = self.bid_side.0;
+        let ghost ask0 = self.ask_side.0;
+        proof {
+            let e = os0[order_id as int]; let n = os0.len() as int;
+            if e.order.status == Status::Active {
+                lemma_member(os0, n, e.key.0, -1, order_id as int);
+                lemma_nonneg(os0, n, e.key.0, -1, e.key.1);
+                match e.key.0 {
+                    Side::Bid => { assert(lvl_cnt(os0, n, Side::Bid, -1, e.key.1) > 0); assert(bid0.lv().contains_key(e.key.1)); }
+                    Side::Ask => { assert(lvl_cnt(os0, n, Side::Ask, -1, e.key.1) > 0); assert(ask0.lv().contains_key(e.key.1)); }
+                }
+            }
+        }
+        let cancelled_order = self.orders.get_mut(order_id);
+
+        match cancelled_order {
+            Some(order_entry) => {
+                if order_entry.order.status == Status::Active {
+                    order_entry.order.status = Status::Cancelled;
+                    order_entry.order.end_time = self.t;
+                    match order_entry.key.0 {
+                        Side::Bid => {
+                            self.bid_side
+                                .remove_order(order_entry.key, order_entry.order.vol);
+                        }
+                        Side::Ask => {
+                            self.ask_side
+                                .remove_order(order_entry.key, order_entry.order.vol);
+                        }
+                    }
+                }
+            }
+            None => panic!("No order with id {} exists", order_id),
+        }
+        proof {
+            let os1 = self.orders@; let e0 = os0[order_id as int]; let e1 = os1[order_id as int];
+            assert(os1 =~= os0.update(order_id as int, e1));
+            if e0.order.status == Status::Active {
+                match e0.key.0 {
+                    Side::Bid => { lemma_step_wf(os0, bid0, Side::Bid, -1, order_id as int, e1, self.bid_side.0, e0.order.vol); lemma_other_side(os0, ask0, Side::Ask, -1, order_id as int, e1); }
+                    Side::Ask => { lemma_step_wf(os0, ask0, Side::Ask, -1, order_id as int, e1, self.ask_side.0, e0.order.vol); lemma_other_side(os0, bid0, Side::Bid, -1, order_id as int, e1); }
+                }
+            } else {
+                assert(os1 =~= os0);
+            }
+        }
+    }
+}
+
+proof fn lemma_prefix(os0: Seq<OrderEntry>, os1: Seq<OrderEntry>, n: int, sd: Side, x: int, p: u32)
+    requires 0 <= n <= os0.len(), n <= os1.len(), forall|j: int| 0 <= j < n ==> os0[j] == os1[j]
+    ensures lvl_vol(os0, n, sd, x, p) == lvl_vol(os1, n, sd, x, p), lvl_cnt(os0, n, sd, x, p) == lvl_cnt(os1, n, sd, x, p),
+            tot_vol(os0, n, sd, x) == tot_vol(os1, n, sd, x), tot_cnt(os0, n, sd, x) == tot_cnt(os1, n, sd, x)
+    decreases n
+{ if n > 0 { lemma_prefix(os0, os1, n - 1, sd, x, p); } }
+proof fn lemma_push_nonresting(os: Seq<OrderEntry>, s: OrderBookSide, sd: Side, e: OrderEntry)
+    requires side_wf(os, s, sd, -1), e.order.status != Status::Active
+    ensures side_wf(os.push(e), s, sd, -1)
+{
+    let os1 = os.push(e); let n = os.len() as int;
+    assert(!rs(os1, n, sd, -1));
+    assert forall|i: int| 0 <= i < n + 1 && rs(os1, i, sd, -1) implies (#[trigger] os1[i]).order.vol >= 1
+            && s.om().contains_key((os1[i].key.1, os1[i].key.2)) && s.om()[(os1[i].key.1, os1[i].key.2)] == i by {
+        assert(i < n); assert(os1[i] == os[i]); assert(rs(os, i, sd, -1));
+    }
+    assert forall|k: (Price, Nanos)| #[trigger] s.om().contains_key(k) implies 0 <= s.om()[k] < n + 1 && rs(os1, s.om()[k] as int, sd, -1) && (os1[s.om()[k] as int].key.1, os1[s.om()[k] as int].key.2) == k by {
+        let i = s.om()[k] as int; assert(rs(os, i, sd, -1)); assert(os1[i] == os[i]);
+    }
+    lemma_prefix(os, os1, n, sd, -1, 0);
+    assert forall|p: u32| #[trigger] s.lv().contains_key(p) <==> lvl_cnt(os1, n + 1, sd, -1, p) > 0 by { lemma_prefix(os, os1, n, sd, -1, p); }
+    assert forall|p: u32| #[trigger] s.lv().contains_key(p) implies s.lv()[p].0 == lvl_vol(os1, n + 1, sd, -1, p) && s.lv()[p].1 == lvl_cnt(os1, n + 1, sd, -1, p) by { lemma_prefix(os, os1, n, sd, -1, p); }
+}
+
+impl Book {
+    fn current_order_id(&self) -> (r: OrderId) ensures r == self.orders@.len() {
+        self.orders.len()
+    }
+    fn create_order(&mut self, side: Side, vol: Vol, trader_id: TraderId, price: Option<Price>) -> (res: Result<OrderId, OrderError>)
+        requires old(self).wfx(-1), old(self).tick_size > 0,
+            price matches Some(p) ==> p < u32::MAX,
+        ensures
+            final(self).wfx(-1),
+            (res is Ok) <==> (price is None || price->0 % old(self).tick_size == 0),                                  // [C12.iff]
+            res matches Err(e) ==> final(self).obs_eq(*old(self)) && e == (OrderError::PriceError { price: price->0, tick_size: old(self).tick_size }),   // [C12.no_trace]
+            res matches Ok(id) ==> id == old(self).orders@.len()                                                              // [C04.dense_ids]
+                && final(self).orders@.len() == old(self).orders@.len() + 1
+                && final(self).orders@.drop_last() == old(self).orders@
+                && final(self).orders@.last().order == (Order { side, status: Status::New, arr_time: old(self).t, end_time: u64::MAX, vol, start_vol: vol,
+                        price: (match (side, price) { (_, Some(p)) => p, (Side::Bid, None) => u32::MAX, (Side::Ask, None) => 0u32 }), trader_id, order_id: id })
+                && final(self).trades@ == old(self).trades@ && final(self).t == old(self).t && final(self).tick_size == old(self).tick_size
+                && final(self).trade_vol == old(self).trade_vol && final(self).trading == old(self).trading
+                && final(self).ask_side == old(self).ask_side && final(self).bid_side == old(self).bid_side,
+    {
+        let order_id = self.current_order_id();
+
+        let order = match (side, price) {
+            (Side::Bid, Some(p)) => {
+                if p % self.tick_size != 0 {
+                    return Err(OrderError::PriceError {
+                        price: p,
+                        tick_size: self.tick_size,
+                    });
+                }
+                Order::buy_limit(self.t, vol, p, trader_id, order_id)
+            }
+            (Side::Bid, None) => Order::buy_market(self.t, vol, trader_id, order_id),
+            (Side::Ask, Some(p)) => {
+                if p % self.tick_size != 0 {
+                    return Err(OrderError::PriceError {
+                        price: p,
+                        tick_size: self.tick_size,
+                    });
+                }
+                Order::sell_limit(self.t, vol, p, trader_id, order_id)
+            }
+            (Side::Ask, None) => Order::sell_market(self.t, vol, trader_id, order_id),
+        };
+
+        let key = match side {
+            Side::Bid => get_bid_key(0, order.price),
+            Side::Ask => get_ask_key(0, order.price),
+        };
+
+        proof {
+            lemma_push_nonresting(self.orders@, self.ask_side.0, Side::Ask, OrderEntry { order, key });
+            lemma_push_nonresting(self.orders@, self.bid_side.0, Side::Bid, OrderEntry { order, key });
+        }
+        self.orders.push(OrderEntry { order, key });
+
+        Ok(order_id)
+    }
+}
 // every resting order has volume >= 1, so counts are bounded by volumes
 proof fn lemma_cnt_le_vol(os: Seq<OrderEntry>, n: int, sd: Side, x: int, p: u32)
     requires n <= os.len(), forall|i: int| 0 <= i < os.len() && rs(os, i, sd, x) ==> (#[trigger] os[i]).order.vol >= 1
